@@ -362,6 +362,8 @@ class Evaluator:
                 m = self.methods.get((base._cls, e.attr))
                 if m is not None and any(ast.unparse(d) == "property" for d in m.decorator_list):
                     return self.call_function(m, {"self": base})
+                if m is not None and not m.decorator_list and isinstance(e.ctx, ast.Load):
+                    return lambda *a_, _m=m, _o=base, **k_: self.invoke(_m, [_o] + list(a_), k_)      # bound method value
             if isinstance(base, tuple) and e.attr in getattr(base, "_fields", ()):
                 return getattr(base, e.attr)          # NamedTuple built by namedtuple_of()
             raise Unsupported(f"attribute {e.attr} on {base!r}")
@@ -717,6 +719,11 @@ class Evaluator:
             if n == "getattr" and len(args) in (2, 3) and isinstance(args[0], Obj) and isinstance(args[1], str):
                 if args[1] in args[0].__dict__:
                     return args[0].__dict__[args[1]]
+                m_ = self.methods.get((args[0]._cls, args[1]))
+                if m_ is not None and not m_.decorator_list:
+                    # a bound method as a value (reflective dispatch `getattr(self, f"check_{name}")`): a callable that
+                    # interprets the method on the same object
+                    return lambda *a_, _m=m_, _o=args[0], **k_: self.invoke(_m, [_o] + list(a_), k_)
                 if len(args) == 3:
                     return args[2]
                 raise AttributeError(args[1])
